@@ -21,7 +21,9 @@ R1  the per-flight context exists wherever it is used (T-PAIR, must-dataflow on
     builder method) or an object of a class with `__enter__` / `__exit__` -
     is replaced by the manager's code around the `with` body, the manager's
     parameters / fields bound to the arguments (`builder.ctx` of the manager
-    is `self.ctx` of `fly`): the manager's try / except / finally around its
+    is `self.ctx` of `fly`; keywords of the call that the manager does not
+    name are the items of its `**kw` dict, together with a `**mapping` handed
+    on): the manager's try / except / finally around its
     `yield` protect the flight exactly like a try statement written in `fly`;
     `__exit__` is not run when `__enter__` failed; an `__exit__` returning True
     swallows.  Acquire, release, guards, handlers and finally blocks that moved
@@ -536,6 +538,73 @@ def _where(n):
     return f' in finally copy {n.fin}' if n.fin else ''
 
 
+def _fold_excess_keywords(fn, resolve):
+    """`with m(a=x, b=y, **more):` over a generator manager `def m(self, **kw)`: the keywords the manager does not name
+    are, by the calling convention, the items of its `**kw` dict.  The call is rewritten to hand that dict over as one
+    keyword (`m(kw={'a': x, 'b': y, **more})`) and the manager to take `kw` as a keyword-only parameter, which is the
+    same binding in a form the splice can read off.  Not done (the `with` then stays as written) when a `**mapping`
+    of the call could also bind a named parameter of the manager that the call does not bind itself.
+    Returns (fn or a rewritten copy, {(line, col) of the call: (manager node, rewritten manager node)})."""
+    import copy
+    nodes = list(walk_no_nested(fn))
+    hits = []
+    for i, c in enumerate(nodes):
+        if not (isinstance(c, ast.Call) and isinstance(getattr(c, '_parent', None), ast.withitem)
+                and c._parent.context_expr is c):
+            continue
+        r = resolve(c)
+        if r is None:
+            continue
+        mgr, _tag, recv = r
+        a = mgr.args
+        if a.kwarg is None or a.vararg is not None or any(isinstance(x, ast.Starred) for x in c.args):
+            continue
+        by_keyword = [p.arg for p in a.args + a.kwonlyargs]
+        excess = [k for k in c.keywords if k.arg is not None and k.arg not in by_keyword]
+        if not excess:
+            continue
+        stars = [k for k in c.keywords if k.arg is None]
+        npos = (1 if recv is not None else 0) + len(c.args)
+        pos = [p.arg for p in a.posonlyargs + a.args]
+        if npos > len(pos):
+            continue
+        explicit = {k.arg for k in c.keywords if k.arg is not None}
+        unbound = [p for p in pos[npos:] + [p.arg for p in a.kwonlyargs] if p not in explicit]
+        if stars and unbound:
+            continue
+        hits.append((i, mgr))
+    if not hits:
+        return fn, {}
+    out = copy.deepcopy(fn)
+    nodes2 = list(walk_no_nested(out))
+    folded = {}
+    for i, mgr in hits:
+        c = nodes2[i]
+        a = mgr.args
+        by_keyword = [p.arg for p in a.args + a.kwonlyargs]
+        keys, values, keep = [], [], []
+        for k in c.keywords:
+            if k.arg is None:
+                keys.append(None)
+                values.append(k.value)
+            elif k.arg in by_keyword:
+                keep.append(k)
+            else:
+                keys.append(ast.copy_location(ast.Constant(k.arg), k.value))
+                values.append(k.value)
+        d = ast.copy_location(ast.Dict(keys=keys, values=values), c)
+        c.keywords = keep + [ast.keyword(arg=a.kwarg.arg, value=d)]
+        m2 = copy.deepcopy(mgr)
+        m2.args.kwonlyargs = list(m2.args.kwonlyargs) + [m2.args.kwarg]
+        m2.args.kw_defaults = list(m2.args.kw_defaults) + [None]
+        m2.args.kwarg = None
+        set_parents(m2)
+        folded[(getattr(c, 'lineno', None), getattr(c, 'col_offset', None))] = (mgr, m2)
+    ast.fix_missing_locations(out)
+    set_parents(out)
+    return out, folded
+
+
 def as_run(prog, fi):
     """The function as the interpreter runs it: a `with` statement over a generator-based context manager of the
     repository (`@contextmanager def m(..): try: <acquire>; yield finally: <release>`) is the manager's body with the
@@ -570,7 +639,18 @@ def as_run(prog, fi):
         tag = SimpleNamespace(file=cls.file, qualname=cls.name, name=cls.name)
         return (init.node if init is not None else None), fields, enter.node, exit_.node, tag
 
-    node, managers = splice_generator_managers(fi.node, resolve)
+    src, folded = _fold_excess_keywords(fi.node, resolve)
+
+    def resolve_folded(c):
+        r = resolve(c)
+        key = (getattr(c, 'lineno', None), getattr(c, 'col_offset', None))
+        if r is not None and key in folded and folded[key][0] is r[0]:
+            return (folded[key][1],) + tuple(r[1:])
+        return r
+
+    node, managers = splice_generator_managers(src, resolve_folded if folded else resolve)
+    if not managers:
+        node = fi.node
     node, more = splice_class_managers(node, resolve_class)
     return node, managers + more
 
